@@ -225,6 +225,11 @@ func (l *Lexer) shiftRawText() []byte {
 		for {
 			if l.r.Peek(0) == 0 && l.r.Err() != nil {
 				return l.r.Shift()
+			} else if 0 < len(l.tmplBegin) && l.at(l.tmplBegin...) {
+				l.r.Move(len(l.tmplBegin))
+				l.moveTemplate()
+				l.hasTmpl = true
+				continue
 			}
 			l.r.Move(1)
 		}
@@ -630,14 +635,26 @@ func (l *Lexer) shiftXML(rawTag Hash) []byte {
 			inTag, sameTag = false, false
 			l.r.Move(1)
 		} else if c == '<' && l.at('<', '!', '-', '-') {
-			l.r.Move(4)
-			for !l.at('-', '-', '>') && l.r.Peek(0) != 0 {
-				l.r.Move(1)
+			l.r.Move(2) // the dashes may belong to the end of the comment already, as in <!-->
+			for !l.at('-', '-', '>') && !l.at('-', '-', '!', '>') && l.r.Peek(0) != 0 {
+				if 0 < len(l.tmplBegin) && l.at(l.tmplBegin...) {
+					l.r.Move(len(l.tmplBegin))
+					l.moveTemplate()
+					l.hasTmpl = true
+				} else {
+					l.r.Move(1)
+				}
 			}
 		} else if c == '<' && l.at('<', '!', '[', 'C', 'D', 'A', 'T', 'A', '[') {
 			l.r.Move(9)
 			for !l.at(']', ']', '>') && l.r.Peek(0) != 0 {
-				l.r.Move(1)
+				if 0 < len(l.tmplBegin) && l.at(l.tmplBegin...) {
+					l.r.Move(len(l.tmplBegin))
+					l.moveTemplate()
+					l.hasTmpl = true
+				} else {
+					l.r.Move(1)
+				}
 			}
 		} else if c == '<' && l.r.Peek(1) == '/' {
 			mark := l.r.Pos()
